@@ -136,7 +136,17 @@ template<typename T, size_t N> void writeMA(nix::DataSet *t, const nix::NDSize &
 }
 template<typename T, size_t N> std::vector<std::string> readMA(const nix::DataSet *s) {
     boost::multi_array<T, N> ma;
+    // every other read goes into a buffer that has been used before: as many elements, but the extents in reverse order — the
+    // library has to give it the shape of the data
+    nix::NDSize want = s->dataExtent();
+    if (N >= 2 && want.size() == N && (wholeTransfers % 4) >= 2) {
+        std::vector<size_t> rev(N);
+        for (size_t i = 0; i < N; i++) rev[i] = (size_t) want[N - 1 - i];
+        ma.resize(rev);
+    }
     s->getData(ma);
+    for (size_t i = 0; i < N && want.size() == N; i++)
+        if (ma.shape()[i] != want[i]) return std::vector<std::string>{"!shape"};
     std::vector<std::string> out;
     for (size_t i = 0; i < ma.num_elements(); i++) out.push_back(Conv<T>::to((T) ma.data()[i]));
     return out;
